@@ -504,14 +504,28 @@ C03.manifest = {
             "kind and edge multiset (C03_traversal_arcs_depend_on_edge_store_only); distances also in the weaker form "
             "'same edge-store arcs' (C03_distances_depend_on_arcs_only). Non-vacuity: a KeepLast history that replaces a "
             "weight and a multigraph history in another insertion order (different successors_vec) give equal results "
-            "(C03_edge_store_only_nonvacuous).",
+            "(C03_edge_store_only_nonvacuous). "
+            "ALSO THE SHORTEST PATHS single_source reports (with_paths=true; Proofs/PathsStoreOnly.v): with "
+            "first_only=false and positive weights, for every name reported by both graphs the two path lists are "
+            "duplicate free and contain the same paths, i.e. are permutations of each other - they are exactly the name "
+            "forms of the shortest paths of the edge-store graph (C03_paths_depend_on_edge_store_only, "
+            "C03_paths_depend_on_arcs_only, from C04_reachable_single_source_paths_exact); with first_only=true "
+            "(non-negative weights) each graph reports exactly one path per node and both are shortest paths of the common "
+            "edge-store graph (C03_first_path_depends_on_edge_store_only, C03_first_path_depends_on_arcs_only). Evaluated "
+            "witnesses: a KeepLast history with a replacement and a KeepFirst history with ignored duplicates in another "
+            "order report the two shortest paths of a diamond in a DIFFERENT ORDER and, with first_only, DIFFERENT single "
+            "paths (C03_paths_edge_store_only_nonvacuous); with a ZERO weight even the path SET depends on the insertion "
+            "order, so the positivity premise is necessary (C03_paths_zero_weight_depend_on_history).",
     "note": "Axioms: none. Trusted: Coq kernel; harness + hook verif_snapshot. Premises of the consequence theorems are "
             "those of the quoted end-to-end theorems: in weighted mode no stored weight is NaN (the property's 'uniformly "
             "weighted'; a group mixing NaN and real weights has an order-dependent running minimum), non-negative for "
             "distances, positive for the centralities; small_adj (< 2^31-1 adjacency entries, the i32 counter of "
             "dijkstra.rs) for distances. With a target, WHICH other nodes single_source also reports depends on the pop "
             "order among equal distances, hence on the history: only the reported distances and the target's entry are "
-            "functions of the edge store, and the theorem says exactly that. Eigenvector centrality (C18) and the "
+            "functions of the edge store, and the theorem says exactly that. Of the reported PATHS the set (first_only=false, "
+            "positive weights) is a function of the edge store, the ORDER of the list and the single path kept by first_only "
+            "are not (they follow the order of the adjacency rows), and the theorems say exactly that. Eigenvector "
+            "centrality (C18) and the "
             "multi_source / all_pairs maps are not restated here (C08 proves the latter equal single_source per key). "
             "Defect F1 (KeepFirst/KeepLast kept the minimum instead of the stored weight) was repaired by a fix: commit; "
             "the model is the repaired code.",
